@@ -94,6 +94,8 @@ def run(tier):
                     if mod == 1: b += 'f8'
                     elif mod == 2 or (mod == 0 and (rm == 5 or base5)): b += '10200000'
                     if b not in have: have.add(b); cat.append(b)
+    for b in liftgen.shift_sweep():
+        if b not in have: have.add(b); cat.append(b)
     dis = run_impl('impl_x86dis.py', cat)
     forms = []
     for h, d in zip(cat, dis):
